@@ -102,6 +102,7 @@ pub fn scenarios() -> Vec<(&'static str, fn() -> Option<String>)> {
         ("put-under-a-file-keeps-stream-in-step (C12)", sc_parent_is_a_file),
         ("every-two-step-history-on-one-path-is-the-sequential-cas (C03)", sc_exhaustive_two_steps),
         ("a-frame-cut-short-by-eof-is-not-executed (C12)", sc_torn_frame),
+        ("two-stale-losers-keep-both-versions (C03/C13)", sc_two_losers),
         ("names-at-the-directory-entry-limit (C10)", sc_names_at_name_max),
         ("get-of-every-listed-path-hashes-to-what-it-announces (C10)", sc_get_every_listed),
     ]
@@ -140,6 +141,24 @@ fn sc_path_escape() -> Option<String> {
     None
 }
 fn sc_short_content_eof() -> Option<String> {
+    // (a) the announced hash is the hash of exactly the bytes that arrive before EOF; (b) EOF after 1, 2, 3 bytes of a length prefix
+    for (ex, case) in [(None, "to a fresh path"), (Some(h(b"stale")), "with a stale expected")] {
+        let r = root("eofh"); std::fs::write(r.join("other"), b"other").ok()?; let mut s = Srv::start(&r)?; s.magic();
+        let part = vec![b'p'; 300];
+        s.send(&Request::Put { path: "f".into(), expected: ex, len: 5000, hash: h(&part) }); s.raw(&part);
+        let code = s.close_and_wait(10);
+        let live: Vec<(String, Vec<u8>)> = live_files(&r).into_iter().filter(|(p, _)| !p.ends_with(".copia-tmp")).collect();
+        let _ = std::fs::remove_dir_all(&r);
+        if code.is_none() { return Some("input closed after 300 of 5000 declared content bytes: the server is still running 10 s later (C12)".into()); }
+        if live != vec![("other".to_string(), b"other".to_vec())] { return Some(format!("a Put {case} announced 5000 bytes and the hash of the 300 that arrived before EOF: afterwards the tree holds {:?} - bytes nobody sent (padding) or an incomplete body were published (C10)", live.iter().map(|(p, c)| (p.clone(), c.len())).collect::<Vec<_>>())); }
+    }
+    for n in 1..=3usize {
+        let r = root("eofp"); let mut s = Srv::start(&r)?; s.magic();
+        s.send(&Request::List); let _ = s.recv(10);
+        s.raw(&[0u8, 0, 0, 9][..n]);
+        if s.close_and_wait(8).is_none() { return Some(format!("input closed after {n} of the 4 bytes of a frame's length prefix: the server is still running 8 s later (it spins on end of input) (C12)")); }
+        let _ = std::fs::remove_dir_all(&r);
+    }
     let r = root("eof"); let mut s = Srv::start(&r)?; s.magic();
     let body = vec![b'z'; 1000];
     s.send(&Request::Put { path: "f".into(), expected: None, len: 1000, hash: h(&body) }); s.raw(&body[..100]);
@@ -304,6 +323,29 @@ fn sc_names_at_name_max() -> Option<String> {
             return Some(format!("a Put to a {n}-byte name killed half way left {:?} at names that are not reserved staging names (C10)", live.iter().map(|(p, c)| (format!("{}..({} bytes)", &p[..p.len().min(12)], p.len()), c.len())).collect::<Vec<_>>())); }
     }
     None
+}
+/// C13 / C03: two clients with the same stale listing both lose their compare-and-swap on one path against one commit by a
+/// third: BOTH losing versions stay retrievable from the hub (neither conflict copy replaces the other)
+pub fn sc_two_losers() -> Option<String> {
+    let r = root("losers"); std::fs::write(r.join("doc"), b"the listed version").ok()?;
+    let listed = h(b"the listed version");
+    let mut res = None;
+    for (i, c) in [b"committed by client C".as_slice(), b"client A1's edit", b"client A2's edit, a different one"].iter().enumerate() {
+        let mut s = Srv::start(&r)?; s.magic();
+        let a = s.put("doc", Some(listed), c);
+        let _ = s.close_and_wait(5);
+        if i == 0 && !matches!(a, Some(Response::PutResult { committed: true, .. })) { res = Some(format!("the first Put with the listed hash did not commit: {a:?} (C03)")); break; }
+        if i > 0 && matches!(a, Some(Response::PutResult { committed: true, .. })) { res = Some("a Put with a stale expected hash was committed (C03)".to_string()); break; }
+    }
+    if res.is_none() {
+        let live = live_files(&r);
+        for want in [b"client A1's edit".as_slice(), b"client A2's edit, a different one"] {
+            if !live.iter().any(|(_, c)| c == want) { res = Some(format!("two clients with the same stale listing lost on `doc` against one commit: {:?} is retrievable from the hub under no name afterwards (the later conflict copy replaced the earlier one); hub holds {:?} (C13)", String::from_utf8_lossy(want), live.iter().map(|(p, _)| p.clone()).collect::<Vec<_>>())); break; }
+        }
+        if !live.iter().any(|(p, c)| p == "doc" && c == b"committed by client C") { res = Some("the committed version is not at `doc` after two losing Puts (C13)".to_string()); }
+    }
+    let _ = std::fs::remove_dir_all(&r);
+    res
 }
 fn sc_committed_means_live() -> Option<String> {
     let r = root("dir"); std::fs::create_dir_all(r.join("d")).ok()?;     // `d` is a directory: rename onto it fails
@@ -483,6 +525,10 @@ fn sc_root_spellings() -> Option<String> {
         if s.recv(10).is_none() { return Some(format!("Put(path = {p:?}) got no reply: the connection is not usable any more (C11)")); }
         let o = outside(&base);
         if !o.is_empty() { return Some(format!("after Put(path = {p:?}), {o:?} exists outside the served directory (C11)")); }
+        // the same path with a STALE `expected` (the compare-and-swap loses: whatever is kept of the content stays inside too)
+        let _ = s.put(p, Some(h(b"a version nobody has")), b"content of a losing write");
+        let o = outside(&base);
+        if !o.is_empty() { return Some(format!("after a losing Put(path = {p:?}, expected = a stale hash), {o:?} exists outside the served directory (C11)")); }
     }
     if s.get("inside.txt").map(|x| x.2) != Some(b"in".to_vec()) { return Some("after Puts on spellings of the root, a following Get does not get its normal reply (C11)".into()); }
     let _ = s.close_and_wait(5);
